@@ -143,8 +143,13 @@ def observe(rig, cfg, rng, ci, poolsize):
     probe = cl.Probe(funcs, log=log)
     seed = rng.randrange(1 << 30)
     logged_run = {"mode": "det", "poolsize": poolsize, "seed": seed, "p_switch": 1.0, "granularity": "opcode"}
-    with probe:
-        det = cl.out_sig(rig.calculate(cube, funcs, "det", poolsize=poolsize, seed=seed, p_switch=1.0, granularity="opcode"))
+    try:
+        with probe:
+            det = cl.out_sig(rig.calculate(cube, funcs, "det", poolsize=poolsize, seed=seed, p_switch=1.0, granularity="opcode"))
+    except Exception as e:
+        # the serial evaluation of this very configuration returned: a pooled evaluation that raises is a violation of C16
+        # with this schedule as the witness (seen with a scratch buffer shared by the tasks: shape mismatch inside bincount)
+        return {"pooled_raised": "%s: %s" % (type(e).__name__, str(e)[:200]), "logged_run": logged_run, "ser": ser}
     stats = {"maps": rig.ctl.maps, "points": rig.ctl.points, "switches": rig.ctl.switches, "threads": rig.ctl.threads_used}
     fin_p = probe.final
     # observed schedule: the task number at each FINAL write of a cell by that task
@@ -247,6 +252,7 @@ def run(ctx):
     dist = {"kind": {}, "subcubes": {}, "aggregates": {}, "together": {}, "layout_axes": {}}
     pool_sizes = set()
     oracle_hits = []        # (cfg index, run, what)
+    raised_cfgs = []        # configurations whose logged scheduled run raised although the serial run returned
     ci = 0
     attempts = 0
     while ci < n_cfg and attempts < n_cfg * 4:
@@ -259,6 +265,11 @@ def run(ctx):
         ob = observe(rig, cfg, rng, ci, ps)
         if "rejected" in ob:
             rejected += 1
+            continue
+        if "pooled_raised" in ob:
+            raised_cfgs.append((cfg, ob))
+            ctx.evaluations += 1
+            ci += 1
             continue
         pool_sizes.add(ps)
         obs.append(ob)
@@ -339,6 +350,13 @@ def run(ctx):
         "tie": "W2 footprint (alone-on-garbage + assignment log, footprints_ok_b inside Coq) + seeded bytecode scheduler; oracle = bitwise equality with the serial run",
     })
 
+    if raised_cfgs:
+        cfg, ob = min(raised_cfgs, key=lambda t: cl.estimate_cells(t[0]))
+        ctx.report(SIG_DIFF, "pooled evaluation raised %s although the serial evaluation of the same cube returned (%s, %s)"
+                   % (ob["pooled_raised"], cfg["kind"], [a["name"] for a in cfg["aggs"]]),
+                   {"cfg": cfg, "run": ob["logged_run"], "failing_runs": len(raised_cfgs),
+                    "oracle": "serial cube.calculate returns; the pooled run under the recorded seeded schedule raises"})
+        return
     if oracle_hits:
         by_sig = {}
         for ci, run, what, sig in oracle_hits:
